@@ -3,6 +3,7 @@
 use vstd::prelude::*;
 use vstd::arithmetic::div_mod::*;
 use vstd::arithmetic::mul::*;
+use vstd::arithmetic::power2::*;
 
 verus! {
 
@@ -440,6 +441,446 @@ pub fn sub(a: u128, b: u128) -> (r: u128)
             lemma_mod_multiples_vanish(1, s, P);
         }
     }
+    /*@@body*/
+}
+
+// ---- inv: binary extended Euclid on 192-bit limb triples (partial correctness) ------------------------
+//@@ extract anchor="fn add_192x192(a0: u64, a1: u64, a2: u64, b0: u64, b1: u64, b2: u64) -> (u64, u64, u64)"
+//@@ rewrite "(z0 as u64, z1 as u64, z2 as u64)" => "(#[verifier::truncate] (z0 as u64), #[verifier::truncate] (z1 as u64), #[verifier::truncate] (z2 as u64))"
+//@@ after "let z0 = (a0 as u128) + (b0 as u128);"
+//@@|    proof { assert(z0 >> 64 == z0 / 0x1_0000_0000_0000_0000u128) by (bit_vector); }
+//@@ after "let z1 = (a1 as u128) + (b1 as u128) + (z0 >> 64);"
+//@@|    proof { assert(z1 >> 64 == z1 / 0x1_0000_0000_0000_0000u128) by (bit_vector); }
+//@@ before "(#[verifier::truncate] (z0 as u64)"
+//@@|    proof {
+//@@|        assert((#[verifier::truncate] (z0 as u64)) as u128 == z0 % 0x1_0000_0000_0000_0000u128) by (bit_vector);
+//@@|        assert((#[verifier::truncate] (z1 as u64)) as u128 == z1 % 0x1_0000_0000_0000_0000u128) by (bit_vector);
+//@@|        assert((#[verifier::truncate] (z2 as u64)) as u128 == z2 % 0x1_0000_0000_0000_0000u128) by (bit_vector);
+//@@|    }
+/// the sum modulo 2^192 (the carry out of the top limb is dropped)
+pub fn add_192x192(a0: u64, a1: u64, a2: u64, b0: u64, b1: u64, b2: u64) -> (r: (u64, u64, u64))
+    ensures val3(r.0, r.1, r.2) == val3(a0, a1, a2) + val3(b0, b1, b2)
+        || val3(r.0, r.1, r.2) == val3(a0, a1, a2) + val3(b0, b1, b2) - W3
+{
+    proof { lemma_consts(); assert(W3 == 0x1_0000_0000_0000_0000_0000_0000_0000_0000_0000_0000_0000_0000int) by (compute); }
+    /*@@body*/
+}
+
+pub spec const T128: int = 0x1_0000_0000_0000_0000_0000_0000_0000_0000int;
+pub spec const T129: int = 0x2_0000_0000_0000_0000_0000_0000_0000_0000int;
+
+/// the ghost state of the Euclid loops: witnesses of the two congruences and the halving budgets
+pub struct G {
+    pub ka: int,
+    pub kd: int,
+    pub ku: nat,
+    pub kv: nat,
+    pub pu: int,
+    pub pv: int,
+}
+
+/// relations kept by the Euclid loops: aa * x == v and dd * x == -uu (mod P) with explicit witnesses, and
+/// the halving budgets pu * uu <= 2^129, pv * v <= 2^128 with pu, pv powers of two
+#[verifier::opaque]
+pub open spec fn g_inv(x: int, uu: int, v: int, aa: int, dd: int, g: G) -> bool {
+    &&& 0 < x < P
+    &&& aa * x == v + g.ka * P
+    &&& dd * x + uu == g.kd * P
+    &&& g.pu == pow2(g.ku) && g.pv == pow2(g.kv)
+    &&& g.pu * uu <= T129 && g.pv * v <= T128
+    &&& 0 <= uu && 0 <= v
+}
+
+proof fn lemma_budget(k: nat, p: int, w: int, bound: nat)
+    requires p == pow2(k), w >= 1, p * w <= pow2(bound)
+    ensures k <= bound
+{
+    lemma_pow2_pos(k);
+    assert(p <= p * w) by (nonlinear_arith) requires p > 0, w >= 1;
+    if k > bound {
+        lemma_pow2_strictly_increases(bound, k);
+    }
+}
+
+proof fn lemma_pow2_consts()
+    ensures pow2(128) == T128, pow2(129) == T129, pow2(0) == 1
+{
+    lemma2_to64();
+    lemma_pow2_adds(64, 64);
+    lemma_pow2_adds(64, 65);
+    lemma_pow2_adds(64, 1);
+    assert(pow2(64) == 0x1_0000_0000_0000_0000int);
+    assert(pow2(128) == T128) by (nonlinear_arith) requires pow2(128) == pow2(64) * pow2(64), pow2(64) == 0x1_0000_0000_0000_0000int, T128 == 0x1_0000_0000_0000_0000_0000_0000_0000_0000int;
+    assert(pow2(65) == 0x2_0000_0000_0000_0000int);
+    assert(pow2(129) == T129) by (nonlinear_arith) requires pow2(129) == pow2(64) * pow2(65), pow2(64) == 0x1_0000_0000_0000_0000int, pow2(65) == 0x2_0000_0000_0000_0000int, T129 == 0x2_0000_0000_0000_0000_0000_0000_0000_0000int;
+}
+
+/// one more halving of w (2 * w2 <= w) pays for one more unit of budget
+proof fn lemma_budget_step(k: nat, p: int, w: int, w2: int, t: int)
+    requires p == pow2(k), p * w <= t, 0 <= 2 * w2 <= w
+    ensures 2 * p == pow2(k + 1), (2 * p) * w2 <= t
+{
+    lemma_pow2_pos(k);
+    lemma_pow2_adds(k, 1);
+    lemma2_to64();
+    assert((2 * p) * w2 <= p * w) by (nonlinear_arith) requires p > 0, 0 <= 2 * w2 <= w;
+}
+
+/// k * P == 2 * t with P odd  ==>  k even
+proof fn lemma_even_factor(k: int, t: int)
+    requires k * P == 2 * t
+    ensures k % 2 == 0
+{
+    let q = k / 2;
+    let r = k % 2;
+    assert(k == 2 * q + r);
+    assert(k * P == 2 * (q * P) + r * P) by (nonlinear_arith) requires k == 2 * q + r;
+    if r == 1 {
+        assert(P % 2 == 1) by (compute);
+        assert((2 * (q * P) + P) % 2 == 1);
+    }
+}
+
+proof fn lemma_halve_d(x: int, h: int, w: int, kd: int)
+    requires (2 * h) * x + 2 * w == kd * P
+    ensures kd % 2 == 0, h * x + w == (kd / 2) * P
+{
+    assert((2 * h) * x + 2 * w == 2 * (h * x + w)) by (nonlinear_arith);
+    lemma_even_factor(kd, h * x + w);
+    let q = kd / 2;
+    assert(kd * P == 2 * (q * P)) by (nonlinear_arith) requires kd == 2 * q;
+}
+
+proof fn lemma_halve_a(x: int, h: int, w: int, ka: int)
+    requires (2 * h) * x == 2 * w + ka * P
+    ensures ka % 2 == 0, h * x == w + (ka / 2) * P
+{
+    assert((2 * h) * x - 2 * w == 2 * (h * x - w)) by (nonlinear_arith);
+    lemma_even_factor(ka, h * x - w);
+    let q = ka / 2;
+    assert(ka * P == 2 * (q * P)) by (nonlinear_arith) requires ka == 2 * q;
+}
+
+// ---- the steps of the algorithm on the abstract state -------------------------------------------------
+
+pub open spec fn g_init(x: int) -> G {
+    G { ka: -1, kd: if x % 2 == 1 { x } else { x + 1 }, ku: 0, kv: 0, pu: 1, pv: 1 }
+}
+
+proof fn lemma_g_init(x: int)
+    requires 0 < x < P
+    ensures g_inv(x, if x % 2 == 1 { x } else { x + P }, P, 0, P - 1, g_init(x))
+{
+    reveal(g_inv);
+    lemma_pow2_consts();
+    assert(0 * x == P + (-1) * P) by (nonlinear_arith);
+    assert((P - 1) * x + x == x * P) by (nonlinear_arith);
+    assert((P - 1) * x + (x + P) == (x + 1) * P) by (nonlinear_arith);
+    assert(P < T128 && 2 * P < T129) by (compute);
+}
+
+/// budgets: the number of halvings so far is bounded by the bit lengths
+proof fn lemma_g_bounds_u(x: int, uu: int, v: int, aa: int, dd: int, g: G)
+    requires g_inv(x, uu, v, aa, dd, g), uu >= 1
+    ensures g.ku <= 129
+{
+    reveal(g_inv);
+    lemma_pow2_consts();
+    lemma_budget(g.ku, g.pu, uu, 129);
+}
+
+proof fn lemma_g_bounds_v(x: int, uu: int, v: int, aa: int, dd: int, g: G)
+    requires g_inv(x, uu, v, aa, dd, g), v >= 1
+    ensures g.kv <= 128
+{
+    reveal(g_inv);
+    lemma_pow2_consts();
+    lemma_budget(g.kv, g.pv, v, 128);
+}
+
+/// u -= v; d += a
+proof fn lemma_g_sub_u(x: int, uu: int, v: int, aa: int, dd: int, g: G) -> (h: G)
+    requires g_inv(x, uu, v, aa, dd, g), uu > v
+    ensures g_inv(x, uu - v, v, aa, dd + aa, h), h == (G { kd: g.kd + g.ka, ..g })
+{
+    reveal(g_inv);
+    let h = G { kd: g.kd + g.ka, ..g };
+    assert((dd + aa) * x + (uu - v) == (g.kd + g.ka) * P) by (nonlinear_arith)
+        requires aa * x == v + g.ka * P, dd * x + uu == g.kd * P;
+    lemma_pow2_pos(g.ku);
+    assert(g.pu * (uu - v) <= g.pu * uu) by (nonlinear_arith) requires g.pu > 0, v >= 0;
+    h
+}
+
+/// v -= u; a += d
+proof fn lemma_g_sub_v(x: int, uu: int, v: int, aa: int, dd: int, g: G) -> (h: G)
+    requires g_inv(x, uu, v, aa, dd, g), uu <= v
+    ensures g_inv(x, uu, v - uu, aa + dd, dd, h), h == (G { ka: g.ka + g.kd, ..g })
+{
+    reveal(g_inv);
+    let h = G { ka: g.ka + g.kd, ..g };
+    assert((aa + dd) * x == (v - uu) + (g.ka + g.kd) * P) by (nonlinear_arith)
+        requires aa * x == v + g.ka * P, dd * x + uu == g.kd * P;
+    lemma_pow2_pos(g.kv);
+    assert(g.pv * (v - uu) <= g.pv * v) by (nonlinear_arith) requires g.pv > 0, uu >= 0;
+    h
+}
+
+/// d += m
+proof fn lemma_g_add_p_d(x: int, uu: int, v: int, aa: int, dd: int, g: G) -> (h: G)
+    requires g_inv(x, uu, v, aa, dd, g)
+    ensures g_inv(x, uu, v, aa, dd + P, h), h == (G { kd: g.kd + x, ..g })
+{
+    reveal(g_inv);
+    let h = G { kd: g.kd + x, ..g };
+    assert((dd + P) * x + uu == (g.kd + x) * P) by (nonlinear_arith) requires dd * x + uu == g.kd * P;
+    h
+}
+
+/// a += m
+proof fn lemma_g_add_p_a(x: int, uu: int, v: int, aa: int, dd: int, g: G) -> (h: G)
+    requires g_inv(x, uu, v, aa, dd, g)
+    ensures g_inv(x, uu, v, aa + P, dd, h), h == (G { ka: g.ka + x, ..g })
+{
+    reveal(g_inv);
+    let h = G { ka: g.ka + x, ..g };
+    assert((aa + P) * x == v + (g.ka + x) * P) by (nonlinear_arith) requires aa * x == v + g.ka * P;
+    h
+}
+
+/// u >>= 1; d >>= 1 (both even); `charge`: this is the first halving after u -= v
+proof fn lemma_g_halve_u(x: int, uu: int, v: int, aa: int, dd: int, g: G, charge: bool) -> (h: G)
+    requires g_inv(x, uu, v, aa, dd, g), uu % 2 == 0, dd % 2 == 0
+    ensures g_inv(x, uu / 2, v, aa, dd / 2, h),
+        h == (if charge { G { kd: g.kd / 2, ku: g.ku + 1, pu: 2 * g.pu, ..g } } else { G { kd: g.kd / 2, ..g } })
+{
+    reveal(g_inv);
+    let (u2, d2) = (uu / 2, dd / 2);
+    assert((2 * d2) * x + 2 * u2 == g.kd * P);
+    lemma_halve_d(x, d2, u2, g.kd);
+    lemma_pow2_pos(g.ku);
+    if charge {
+        lemma_budget_step(g.ku, g.pu, uu, u2, T129);
+        G { kd: g.kd / 2, ku: g.ku + 1, pu: 2 * g.pu, ..g }
+    } else {
+        assert(g.pu * u2 <= g.pu * uu) by (nonlinear_arith) requires g.pu > 0, 0 <= u2 <= uu;
+        G { kd: g.kd / 2, ..g }
+    }
+}
+
+/// v >>= 1; a >>= 1 (both even)
+proof fn lemma_g_halve_v(x: int, uu: int, v: int, aa: int, dd: int, g: G, charge: bool) -> (h: G)
+    requires g_inv(x, uu, v, aa, dd, g), v % 2 == 0, aa % 2 == 0
+    ensures g_inv(x, uu, v / 2, aa / 2, dd, h),
+        h == (if charge { G { ka: g.ka / 2, kv: g.kv + 1, pv: 2 * g.pv, ..g } } else { G { ka: g.ka / 2, ..g } })
+{
+    reveal(g_inv);
+    let (v2, a2) = (v / 2, aa / 2);
+    assert((2 * a2) * x == 2 * v2 + g.ka * P);
+    lemma_halve_a(x, a2, v2, g.ka);
+    lemma_pow2_pos(g.kv);
+    if charge {
+        lemma_budget_step(g.kv, g.pv, v, v2, T128);
+        G { ka: g.ka / 2, kv: g.kv + 1, pv: 2 * g.pv, ..g }
+    } else {
+        assert(g.pv * v2 <= g.pv * v) by (nonlinear_arith) requires g.pv > 0, 0 <= v2 <= v;
+        G { ka: g.ka / 2, ..g }
+    }
+}
+
+/// at the end (v == 1): a * x == 1 (mod P); the relation survives a -= m
+proof fn lemma_g_final(x: int, uu: int, aa: int, dd: int, g: G)
+    requires g_inv(x, uu, 1, aa, dd, g)
+    ensures aa * x == 1 + g.ka * P, 0 < x < P
+{
+    reveal(g_inv);
+}
+
+/// a 192-bit value shifted right by one bit, limb by limb
+proof fn lemma_shr3(x0: u64, x1: u64, x2: u64, y0: u64, y1: u64, y2: u64)
+    requires y0 == (x0 >> 1) | ((x1 & 1) << 63), y1 == (x1 >> 1) | ((x2 & 1) << 63), y2 == x2 >> 1
+    ensures val3(y0, y1, y2) == val3(x0, x1, x2) / 2
+{
+    assert(y0 == x0 / 2 + (x1 % 2) * 0x8000_0000_0000_0000u64) by (bit_vector)
+        requires y0 == (x0 >> 1) | ((x1 & 1) << 63);
+    assert(y1 == x1 / 2 + (x2 % 2) * 0x8000_0000_0000_0000u64) by (bit_vector)
+        requires y1 == (x1 >> 1) | ((x2 & 1) << 63);
+    assert(y2 == x2 / 2) by (bit_vector) requires y2 == x2 >> 1;
+}
+
+/// facts about machine words used by the loops (closed facts, proved once, carried as invariants)
+pub open spec fn word_facts() -> bool {
+    &&& forall|t: u64| #[trigger] ((t as u128) << 64) == (t as u128) * 0x1_0000_0000_0000_0000u128
+    &&& forall|t: u64| #[trigger] (t & 1) == t % 2
+    &&& forall|t: u128| #[trigger] (t & 1) == t % 2
+    &&& forall|t: u128| #[trigger] (t >> 1) == t / 2
+    &&& forall|t: u128| #[trigger] (t >> 64) == t / 0x1_0000_0000_0000_0000u128
+    &&& M == 340282366920938463463374557953744961537u128
+    &&& #[verifier::truncate] ((340282366920938463463374557953744961537u128 >> 64) as u64) == 0xFFFF_FFFF_FFFF_FFFFu64
+    &&& #[verifier::truncate] (340282366920938463463374557953744961537u128 as u64) == 0xFFFF_D300_0000_0001u64
+    &&& val3(0xFFFF_D300_0000_0001u64, 0xFFFF_FFFF_FFFF_FFFFu64, 0) == P
+}
+
+proof fn lemma_word_facts()
+    ensures word_facts()
+{
+    assert(forall|t: u64| #[trigger] ((t as u128) << 64) == (t as u128) * 0x1_0000_0000_0000_0000u128) by (bit_vector);
+    assert(forall|t: u64| #[trigger] (t & 1) == t % 2) by (bit_vector);
+    assert(forall|t: u128| #[trigger] (t & 1) == t % 2) by (bit_vector);
+    assert(forall|t: u128| #[trigger] (t >> 1) == t / 2) by (bit_vector);
+    assert(forall|t: u128| #[trigger] (t >> 64) == t / 0x1_0000_0000_0000_0000u128) by (bit_vector);
+    assert(M == 340282366920938463463374557953744961537u128);
+    assert(#[verifier::truncate] ((340282366920938463463374557953744961537u128 >> 64) as u64) == 0xFFFF_FFFF_FFFF_FFFFu64) by (bit_vector);
+    assert(#[verifier::truncate] (340282366920938463463374557953744961537u128 as u64) == 0xFFFF_D300_0000_0001u64) by (bit_vector);
+    assert(val3(0xFFFF_D300_0000_0001u64, 0xFFFF_FFFF_FFFF_FFFFu64, 0) == P) by (compute);
+}
+
+//@@ extract anchor="fn inv(x: u128) -> u128"
+//@@ rewrite-re "\b([xMv]) as u64" => "#[verifier::truncate] (\1 as u64)"
+//@@ rewrite-re "\(([xMv]) >> 64\) as u64" => "#[verifier::truncate] ((\1 >> 64) as u64)"
+//@@ before "let mut v = M;"
+//@@|    let ghost xi = x as int;
+//@@|    proof {
+//@@|        lemma_word_facts();
+//@@|        assert((#[verifier::truncate] (x as u64)) as u128 == x % 0x1_0000_0000_0000_0000u128) by (bit_vector);
+//@@|    }
+//@@ before "while v != 1"
+//@@|    let ghost mut g: G = g_init(xi);
+//@@|    proof {
+//@@|        assert(val3(u0, u1, u2) == (if xi % 2 == 1 { xi } else { xi + P }));
+//@@|        lemma_g_init(xi);
+//@@|    }
+//@@ loop 1
+//@@|        invariant
+//@@|            word_facts(), 0 < xi < P,
+//@@|            g_inv(xi, val3(u0, u1, u2), v as int, val3(a0, a1, a2), val3(d0, d1, d2), g),
+//@@|            val3(u0, u1, u2) % 2 == 1, v % 2 == 1,
+//@@|            val3(a0, a1, a2) <= (g.ku + g.kv + 1) * 340282366920938463463374557953744961537, val3(d0, d1, d2) <= (g.ku + g.kv + 1) * 340282366920938463463374557953744961537,
+//@@ loop 2
+//@@|            invariant
+//@@|                word_facts(), 0 < xi < P,
+//@@|                g_inv(xi, val3(u0, u1, u2), v as int, val3(a0, a1, a2), val3(d0, d1, d2), g),
+//@@|                val3(u0, u1, u2) % 2 == 1, v % 2 == 1,
+//@@|                val3(a0, a1, a2) <= (g.ku + g.kv + 1) * 340282366920938463463374557953744961537, val3(d0, d1, d2) <= (g.ku + g.kv + 1) * 340282366920938463463374557953744961537,
+//@@ before "let (t0, t1, t2) = sub_192x192(u0, u1, u2,"
+//@@|            let ghost (uo, ao, dold) = (val3(u0, u1, u2), val3(a0, a1, a2), val3(d0, d1, d2));
+//@@|            proof {
+//@@|                assert((#[verifier::truncate] (v as u64)) as u128 == v % 0x1_0000_0000_0000_0000u128) by (bit_vector);
+//@@|                assert(uo > v && v >= 1);
+//@@|                lemma_g_bounds_u(xi, uo, v as int, ao, dold, g);
+//@@|                lemma_g_bounds_v(xi, uo, v as int, ao, dold, g);
+//@@|            }
+//@@ before "while u0 &"
+//@@|            proof {
+//@@|                assert(val3(u0, u1, u2) == uo - v as int);
+//@@|                assert(val3(d0, d1, d2) == dold + ao);
+//@@|                g = lemma_g_sub_u(xi, uo, v as int, ao, dold, g);
+//@@|            }
+//@@|            let ghost mut first: bool = true;
+//@@ loop 3
+//@@|                invariant
+//@@|                    word_facts(), 0 < xi < P,
+//@@|                    g_inv(xi, val3(u0, u1, u2), v as int, val3(a0, a1, a2), val3(d0, d1, d2), g),
+//@@|                    first ==> val3(u0, u1, u2) % 2 == 0,
+//@@|                    1 <= val3(u0, u1, u2), v % 2 == 1,
+//@@|                    val3(a0, a1, a2) <= (g.ku + g.kv + 1) * 340282366920938463463374557953744961537,
+//@@|                    first ==> val3(d0, d1, d2) <= 2 * (g.ku + g.kv + 1) * 340282366920938463463374557953744961537,
+//@@|                    !first ==> val3(d0, d1, d2) <= (g.ku + g.kv + 1) * 340282366920938463463374557953744961537,
+//@@ before "if d0 &"
+//@@|                let ghost (x0_, x1_, x2_) = (u0, u1, u2);
+//@@|                let ghost dprev = val3(d0, d1, d2);
+//@@|                proof {
+//@@|                    lemma_g_bounds_u(xi, val3(u0, u1, u2), v as int, val3(a0, a1, a2), dprev, g);
+//@@|                    lemma_g_bounds_v(xi, val3(u0, u1, u2), v as int, val3(a0, a1, a2), dprev, g);
+//@@|                }
+//@@ before "u0 = (u0 >> 1)"
+//@@|                let ghost (e0, e1, e2) = (d0, d1, d2);
+//@@|                proof {
+//@@|                    if dprev % 2 == 1 {
+//@@|                        assert(val3(d0, d1, d2) == dprev + P);
+//@@|                        g = lemma_g_add_p_d(xi, val3(x0_, x1_, x2_), v as int, val3(a0, a1, a2), dprev, g);
+//@@|                    }
+//@@|                    assert(val3(d0, d1, d2) % 2 == 0);
+//@@|                }
+//@@ after "d2 >>= 1;"
+//@@|                proof {
+//@@|                    lemma_shr3(x0_, x1_, x2_, u0, u1, u2);
+//@@|                    lemma_shr3(e0, e1, e2, d0, d1, d2);
+//@@|                    g = lemma_g_halve_u(xi, val3(x0_, x1_, x2_), v as int, val3(a0, a1, a2), val3(e0, e1, e2), g, first);
+//@@|                    first = false;
+//@@|                }
+//@@ before "v -= "
+//@@|        let ghost (uo, aold, dd, vo) = (val3(u0, u1, u2), val3(a0, a1, a2), val3(d0, d1, d2), v as int);
+//@@|        proof {
+//@@|            assert(u2 == 0 && uo <= vo && uo >= 1);
+//@@|            lemma_g_bounds_u(xi, uo, vo, aold, dd, g);
+//@@|            lemma_g_bounds_v(xi, uo, vo, aold, dd, g);
+//@@|        }
+//@@ before "while v &"
+//@@|        proof {
+//@@|            assert(v as int == vo - uo);
+//@@|            assert(val3(a0, a1, a2) == aold + dd);
+//@@|            g = lemma_g_sub_v(xi, uo, vo, aold, dd, g);
+//@@|        }
+//@@|        let ghost mut first: bool = true;
+//@@ loop 4
+//@@|            invariant
+//@@|                word_facts(), 0 < xi < P,
+//@@|                g_inv(xi, val3(u0, u1, u2), v as int, val3(a0, a1, a2), val3(d0, d1, d2), g),
+//@@|                first ==> v % 2 == 0,
+//@@|                first ==> g.kv <= 128, g.kv <= 129, g.ku <= 129,
+//@@|                val3(u0, u1, u2) % 2 == 1,
+//@@|                val3(d0, d1, d2) <= (g.ku + g.kv + 1) * 340282366920938463463374557953744961537,
+//@@|                first ==> val3(a0, a1, a2) <= 2 * (g.ku + g.kv + 1) * 340282366920938463463374557953744961537,
+//@@|                !first ==> val3(a0, a1, a2) <= (g.ku + g.kv + 1) * 340282366920938463463374557953744961537,
+//@@ before "if a0 &"
+//@@|            let ghost aprev = val3(a0, a1, a2);
+//@@ before "v >>="
+//@@|            let ghost (e0, e1, e2) = (a0, a1, a2);
+//@@|            let ghost vprev = v;
+//@@|            proof {
+//@@|                if aprev % 2 == 1 {
+//@@|                    assert(val3(a0, a1, a2) == aprev + P);
+//@@|                    g = lemma_g_add_p_a(xi, val3(u0, u1, u2), v as int, aprev, val3(d0, d1, d2), g);
+//@@|                }
+//@@|                assert(val3(a0, a1, a2) % 2 == 0);
+//@@|            }
+//@@ after "a2 >>= 1;"
+//@@|            proof {
+//@@|                lemma_shr3(e0, e1, e2, a0, a1, a2);
+//@@|                g = lemma_g_halve_v(xi, val3(u0, u1, u2), vprev as int, val3(e0, e1, e2), val3(d0, d1, d2), g, first);
+//@@|                first = false;
+//@@|            }
+//@@ before "let mut a = (a0 as u128) + ((a1 as u128) << 64);"
+//@@|    let ghost mut ka: int = g.ka;
+//@@|    proof {
+//@@|        lemma_g_final(xi, val3(u0, u1, u2), val3(a0, a1, a2), val3(d0, d1, d2), g);
+//@@|    }
+//@@ loop? 5
+//@@|        invariant
+//@@|            word_facts(), 0 < xi < P, val3(a0, a1, a2) * xi == 1 + ka * P, a as int == val2(a0, a1),
+//@@ after "a = (a0 as u128) + ((a1 as u128) << 64); }"
+//@@|    proof {
+//@@|        lemma_eqm_multiple(1, ka);
+//@@|    }
+//@@ before "let (t0, t1, t2) = sub_192x192(a0, a1, a2,"
+//@@|        let ghost aold = val3(a0, a1, a2);
+//@@ after "a2 = t2; a = (a0 as u128) + ((a1 as u128) << 64);"
+//@@|        proof {
+//@@|            assert(val3(a0, a1, a2) == aold - P);
+//@@|            assert((aold - P) * xi == 1 + (ka - xi) * P) by (nonlinear_arith) requires aold * xi == 1 + ka * P;
+//@@|            ka = ka - xi;
+//@@|        }
+/// C07 for the 128-bit field: inv(0) == 0 and otherwise x * inv(x) == 1 (mod P) with a canonical result.
+/// Partial correctness: termination of the Euclid loops (it needs gcd(x, P) == 1) is not proved.
+#[verifier::exec_allows_no_decreases_clause]
+pub fn inv(x: u128) -> (r: u128)
+    requires (x as int) < P
+    ensures (r as int) < P,
+        x == 0 ==> r == 0,
+        x != 0 ==> eqm((r as int) * (x as int), 1),
+{
+    proof { lemma_consts(); }
     /*@@body*/
 }
 
